@@ -213,6 +213,9 @@ def build_aerostruct(surfs, flow=None, npoints=1, compressible=False, rotational
                 c(src, pn + ".coupled.aero_states.omega")
                 continue
             c(src, pn + "." + k)
+        if any(s_["struct_weight_relief"] or s_.get("distributed_fuel_weight") or "n_point_masses" in s_ for s_ in surfs):
+            # as in the documentation's run scripts: the load factor also drives the inertial loads inside the coupled group
+            c("load_factor" if point_flows is None else "load_factor_%d" % i, pn + ".coupled.load_factor")
         if rotational:
             # the moment reference / rotation centre: AerostructPoint computes cg itself; connect to aero_states
             c(pn + ".cg", pn + ".coupled.aero_states.cg")
